@@ -1,12 +1,13 @@
 PROP = dict(
     gen=["accessors", "layouts"],
-    proof_files=["Properties/C11.v", "Proofs/AccessorsProofs.v", "Proofs/AccessorTables.v", "Proofs/CombinerProofs.v", "Spec/CombinerSpec.v"],
-    model_files=["Model/Accessors.v", "Model/AccessorsRun.v", "Model/Combiner.v"],
+    proof_files=["Properties/C11.v", "Proofs/AccessorsProofs.v", "Proofs/AccessorTables.v", "Proofs/CombinerProofs.v", "Proofs/CombinerRound5.v", "Spec/CombinerSpec.v"],
+    model_files=["Model/Accessors.v", "Model/AccessorsRun.v", "Model/Combiner.v", "Model/CombinerRun.v"],
     trusted=["Gen/AccessorTables.v: complete 256-row tabulation of MessageState.String and of DataCoding.Encoding() != nil from the running code (dumper: harness/gen_accessors.go)",
              "Gen/PduLayouts.v: layouts and request->response pairs (dumper: harness/pdu_common.go)",
              "Go value -> Gallina term printers harness/pdu_common.go (coqValue) and harness/c10.go, harness/c11.go"],
-    assumptions=["fmt's %v/%+v formatting, reflect, hex.EncodeToString and the golang.org/x/text decoders are Go library code: exercised under recover() by the direct test, not modelled",
-                 "ShortMessage.Parse with a decoder: only the outcome class is observed; the GSM 7-bit decoder is C08's subject",
+    assumptions=["fmt's %v/%+v formatting, hex.EncodeToString and the golang.org/x/text decoders are Go library code: exercised under recover() by the direct test, not modelled; reflect is modelled where the library calls it itself (getHeader: NumField / Addr / Interface, Model/Accessors.v get_header_reflect, field kinds dumped from the running code)",
+                 "C11 demands that the operations return, not what they print: texts (state names, '+' rule, hex case, status names) are compared by outcome class only",
+                 "ShortMessage.Parse with a decoder: only the outcome class is observed; for the data_codings routed to gsm7bit.Packed the decoder model of C08 (Model/Gsm7.v decode, theorem decode_total) is plugged in (C11_parse_gsm7), the x/text decoders stay a parameter",
                  "a partially filled PDU returned together with a decode error is exercised by the direct test only (the decoder model returns no value for it)"],
 )
 GEN = {"accessors": "Gen/AccessorTables.v"}
@@ -19,6 +20,9 @@ MANIFEST = dict(
     technique="Coq totality proofs over all inputs / all histories for accessor models with explicit Panic outcomes + complete 256-row tables regenerated from the code + vm_compute correspondence on every PDU a malformed-frame stream yields and on exhaustive edge grids",
     text="Theorems in coq/Properties/C11.v: on every value the decoder model returns, every modelled accessor (ReadSequence, ReadCommandStatus, Resp, MessageState/Address text, "
          "ConcatenatedHeader, Parse's hex branch) returns Ok; ConcatenatedHeader is total for elements of any length; the combiner step and run never panic for any registry and any history "
-         "of arbitrary deliver_sm values; MessageState.String is total and equals the complete table dumped from the running code; one ..._legacy_refuted witness per repaired defect (D6, D7, D8).",
+         "of arbitrary deliver_sm values; MessageState.String is total and equals the complete table dumped from the running code; one ..._legacy_refuted witness per repaired defect (D6, D7, D8). "
+         "Round 5: a segment numbered 0 or above its total leaves any registry unchanged, so does a run of any length of them (C11_ignored_run, tied by chk_ignored on runs of 17..5000 such segments on one combiner); "
+         "getHeader's reflect loop returns on every registered PDU type as ReadPDU returns it and panics exactly when an unexported field precedes every Header (C11_get_header_pointer, C11_read_sequence_code); "
+         "Parse with the GSM 7-bit decoder model plugged in never panics (C11_parse_gsm7); the text methods of the octet-valued field types return on every octet (C11_enum_strings_code, table dumped from the running code).",
     note="Trusted: Coq kernel + vm_compute; table dumpers and Go->Gallina printers; Go library code (fmt, reflect, x/text decoders) exercised under recover() only. No axioms.",
 )
